@@ -106,6 +106,14 @@ EFFECTS = [
     dict(file="FnKeepalive", src="client.py", qual="Client._send_pingreq", name="sendPingreq", params=[], ret="Int",
          attrs=[], clock="now", ignore=["_easy_log"],
          calls={"_send_simple_command": dict(clobbers="*", args=1, returns=True)}),
+    # (type Fn: a user callback attribute - installed or None; calling the local it was copied to is the effect
+    # `call "<name>" [socket]`, which may raise: a Bool parameter; `raise` in the handler re-raises the user's exception)
+    dict(file="FnSockCb", src="client.py", qual="Client._call_socket_register_write", name="callSocketRegisterWrite", params=[],
+         attrs=[("_sock", "Ref"), ("_registered_write", "Bool"), ("on_socket_register_write", "Fn"), ("suppress_exceptions", "Bool")],
+         clock="now", ignore=["_easy_log"], calls={}, fn_calls={"on_socket_register_write": "cb_raises"}, fn_keeps=["suppress_exceptions"]),
+    dict(file="FnSockCb", src="client.py", qual="Client._call_socket_unregister_write", name="callSocketUnregisterWrite", params=[("sock", "Ref")],
+         attrs=[("_sock", "Ref"), ("_registered_write", "Bool"), ("on_socket_unregister_write", "Fn"), ("suppress_exceptions", "Bool")],
+         clock="now", ignore=["_easy_log"], calls={}, fn_calls={"on_socket_unregister_write": "cb_raises"}, fn_keeps=["suppress_exceptions"]),
     # (an entry of the `_in_packet` dictionary is an attribute named `_in_packet.<key>`)
     dict(file="FnKeepalive", src="client.py", qual="Client._handle_pingresp", name="handlePingresp", params=[], ret="Int",
          attrs=[("_in_packet.remaining_length", "Int")], clock="now", ignore=["_easy_log"], calls={}),
@@ -120,7 +128,7 @@ EFFECTS = [
 ]
 # generated files whose definitions live in a namespace of their own (their module constants would otherwise clash with those
 # of another generated file imported by the same proof)
-NS = {"FnLoopRc": ".LoopRc"}
+NS = {"FnLoopRc": ".LoopRc", "FnSockCb": ".SockCb"}
 EXC = {"ValueError": ".valueError", "TypeError": ".typeError", "AssertionError": ".assertionError", "IndexError": ".indexError", "MQTTException": ".mqttException", "RuntimeError": ".runtimeError"}
 RESERVED = {"bytes": "bytes_", "end": "end_", "from": "from_", "at": "at_", "open": "open_"}
 
@@ -729,6 +737,13 @@ class EffTr(Tr):
             if ta != "Ref" or tb != "Ref":
                 raise Missing(f"`is` between {ta} and {tb}")
             return (f"({a} == {b})" if isinstance(e.ops[0], ast.Is) else f"({a} != {b})"), "Bool"
+        if isinstance(e, ast.BoolOp) and isinstance(e.op, ast.Or) and len(e.values) == 2:
+            a, ta = self.expr(e.values[0])
+            if ta == "Ref":
+                b, tb = self.expr(e.values[1])
+                if tb != "Ref":
+                    raise Missing("`or` of a reference and something else")
+                return f"(if {a} != 0 then {a} else {b})", "Ref"          # `x or y` yields x when x is not None
         if isinstance(e, ast.Subscript) and self.is_self_attr(e.value) and isinstance(e.slice, ast.Constant) and isinstance(e.slice.value, str) \
                 and f"self.{e.value.attr}.{e.slice.value}" in self.types:
             if e.value.attr in self.clobbered or "*" in self.clobbered or self.epoch:
@@ -801,13 +816,21 @@ class EffTr(Tr):
     def is_call(self, v):
         return isinstance(v, ast.Call) and self.is_self_attr(v.func) and v.func.attr in self.cfg["calls"]
 
-    def test(self, e):
+    def truth(self, e):
+        """Python truthiness of an expression of type Bool / Fn (installed?) / Int / Ref (not None)"""
+        if isinstance(e, ast.UnaryOp) and isinstance(e.op, ast.Not):
+            return f"(!{self.truth(e.operand)})"
+        if isinstance(e, ast.BoolOp):
+            return "(" + (" && " if isinstance(e.op, ast.And) else " || ").join(self.truth(x) for x in e.values) + ")"
         v, t = self.expr(e)
-        if t == "Int":
-            return f"({v} != 0)"            # truthiness of an int (an MQTTErrorCode)
-        if t != "Bool":
-            raise Missing("non-Bool test")
-        return v
+        if t in ("Int", "Ref"):
+            return f"({v} != 0)"
+        if t in ("Bool", "Fn"):
+            return v
+        raise Missing(f"truth value of a {t}")
+
+    def test(self, e):
+        return self.truth(e)
 
     def stmts(self, body, ind, ctl):
         out = []
@@ -840,7 +863,9 @@ class EffTr(Tr):
                     isinstance(s.value, ast.Call) and isinstance(s.value.func, ast.Name) and s.value.func.id == "time_func"):
                 a = s.targets[0].attr
                 val, t = self.expr(s.value)
-                if t != "Int":
+                if t == "Bool":
+                    val = f"(if {val} then 1 else 0)"
+                elif t != "Int":
                     raise Missing(f"self.{a} assigned a {t}")
                 out.append(f'{pad}effs := effs ++ [Py.MEff.setInt "{a}" {val}]')
                 self.clobbered.add(a)
@@ -865,6 +890,28 @@ class EffTr(Tr):
                 if self.cfg["calls"][v.func.attr].get("raises"):
                     raise Missing(f"self.{v.func.attr}() outside try/except")
                 out.append(self.call_eff(pad, v))
+            elif isinstance(s, ast.Raise) and s.exc is None:
+                out.append(f"{pad}throw Exc.other")          # re-raises the user's exception
+            elif isinstance(s, ast.Try) and len(s.body) == 1 and isinstance(s.body[0], ast.Expr) and isinstance(s.body[0].value, ast.Call) \
+                    and isinstance(s.body[0].value.func, ast.Name) and s.body[0].value.func.id in self.cfg.get("fn_calls", {}) \
+                    and self.types.get(s.body[0].value.func.id) == "Fn" \
+                    and len(s.handlers) == 1 and isinstance(s.handlers[0].type, ast.Name) and s.handlers[0].type.id == "Exception" and not s.finalbody \
+                    and not s.orelse:
+                call = s.body[0].value
+                # the user's callback is handed (self, userdata, socket): the socket is the argument of the effect
+                if len(call.args) != 3 or call.keywords:
+                    raise Missing("arguments of the callback")
+                sk, tsk = self.expr(call.args[2])
+                if tsk != "Ref":
+                    raise Missing("third argument of the callback is not the socket")
+                out.append(f'{pad}effs := effs ++ [Py.MEff.call "{call.func.id}" [{sk}]]')
+                # the user's code may change any attribute - except those the configuration declares it leaves alone (an
+                # assumption of the translation, quoted in the generated docstring)
+                self.clobbered |= {a for a, _ in self.cfg["attrs"]} - set(self.cfg.get("fn_keeps", []))
+                self.depth += 1
+                out.append(f"{pad}if {self.cfg['fn_calls'][call.func.id]} then")
+                out += self.stmts(s.handlers[0].body, ind + 1, ctl) or [f"{pad}  pure ()"]
+                self.depth -= 1
             elif isinstance(s, ast.Try) and len(s.body) == 1 and isinstance(s.body[0], ast.Expr) and self.is_call(s.body[0].value) \
                     and len(s.handlers) == 1 and isinstance(s.handlers[0].type, ast.Name) and s.handlers[0].type.id == "Exception" \
                     and s.handlers[0].name is None and not s.finalbody:
@@ -911,13 +958,15 @@ class EffTr(Tr):
     def translate_effects(self):
         cfg, fn = self.cfg, self.fn
         body = self.stmts(fn.body, 1, None)
-        ps = [f"(self_{a.lstrip('_').replace('.', '_')} : {t})" for a, t in cfg["attrs"]] + [f"(self_{v} : Bool)" for v in cfg.get("none_tests", {}).values()] \
+        ps = [f"(self_{a.lstrip('_').replace('.', '_')} : {'Bool' if t == 'Fn' else t})" for a, t in cfg["attrs"]] + [f"(self_{v} : Bool)" for v in cfg.get("none_tests", {}).values()] \
             + [f"({cfg['clock']} : Int)"] + [f"({c['raises']} : Bool)" for c in cfg["calls"].values() if c.get("raises")] \
+            + [f"({v} : Bool)" for v in cfg.get("fn_calls", {}).values()] \
             + [f"({lname(n)} : {t})" for n, t in cfg["params"]] + [f"({n} : {t})" for n, t in self.extra]
         where = f"{cfg['src']} {cfg['qual']} (line {fn.lineno})"
         rt = "(Int × List Py.MEff)" if cfg.get("ret") else "(List Py.MEff)"
         L = [f"/-- {where}: " + ("its result and " if cfg.get("ret") else "") + "the calls and attribute assignments it makes, in execution order"
-             + ("; parameters `self_<attr>_<k>`: the attribute's value after the k-th unconditional call" if self.extra else "") + " -/",
+             + ("; parameters `self_<attr>_<k>`: the attribute's value after the k-th unconditional call" if self.extra else "")
+             + ("; ASSUMED: the user's callback does not assign " + ", ".join(cfg["fn_keeps"]) if cfg.get("fn_keeps") else "") + " -/",
              f"def {cfg['name']} {' '.join(ps)} : Except Exc {rt} := do",
              "  let mut effs : List Py.MEff := []"]
         L += [f"  let mut {lname(n)} := {lname(n)}" for n, _ in cfg["params"]]
